@@ -47,6 +47,34 @@ def compile_and_run(env, rel):
     return out, ex
 
 
+def run_with_extra(env, rel, one_shot):
+    """Compile `rel` with one additional SELECT expression (to_executable's documented extra_columns argument, handed over
+    as a list or as a one-shot iterator - both are Iterables) and run it: returns (rows keyed by tag, values of the extra
+    column).  Raises CompileError / DatabaseError."""
+    import sqlalchemy as sa
+
+    from .env import db
+    from .tags import name_of
+
+    extra = [sa.literal(7).label("vf_extra_")]
+    try:
+        ex = env.sql.to_executable(rel, extra_columns=iter(extra) if one_shot else extra)
+    except Exception as e:
+        raise CompileError(e) from e
+    try:
+        result = db().execute(ex)
+        raw = result.fetchall()
+        keys = list(result.keys())
+    except Exception as e:
+        raise DatabaseError(e, sql_text(ex)) from e
+    rows, extras = [], []
+    for r in raw:
+        m = dict(zip(keys, r))
+        rows.append({c: m[name_of(c)] for c in rel.columns})
+        extras.append(m.get("vf_extra_", "<missing>"))
+    return rows, extras, ex
+
+
 def sql_text(ex):
     try:
         return str(ex.compile(compile_kwargs={"literal_binds": True})).replace("\n", " ")
